@@ -552,16 +552,16 @@ def _mutate_json(rng, j):
 
 def cases(rng, tier):
     if tier == "quick":
-        n_val, n_load, n_dec, n_inh = 5000, 700, 900, 700
+        n_val, n_load, n_dec, n_inh = 8000, 1000, 1200, 1000
     elif tier == "thorough":
         n_val, n_load, n_dec, n_inh = 150000, 15000, 25000, 15000
     else:  # search: oracle-only hunt
-        n_val, n_load, n_dec, n_inh = 60000, 8000, 0, 0
+        n_val, n_load, n_dec, n_inh = 30000, 4000, 0, 0
     for e in FIXED + _widths():
         yield {"k": "val", "e": e}
         yield {"k": "load", "e": e}
     for i in range(n_val):
-        yield {"k": "val", "e": _gen_expr(rng, rng.choice([1, 2, 3, 3, 4, 5]))}
+        yield {"k": "val", "e": _gen_expr(rng, rng.choice([2, 3, 3, 4, 4, 5]))}
     for i in range(n_load):
         yield {"k": "load", "e": _gen_expr(rng, rng.choice([1, 2, 3, 4]))}
     for i in range(n_dec):
@@ -1093,7 +1093,7 @@ def shrink(spec, pred):
         return spec
     cur = spec
     improved = True
-    budget = 200
+    budget = 600
     while improved and budget > 0:
         improved = False
         e = cur["e"]
@@ -1101,6 +1101,9 @@ def shrink(spec, pred):
         for path, x in _subexprs(e):
             if path:
                 cands.append(x)  # a sub-expression alone
+        for path, x in _subexprs(e):
+            if path and x != "@unit":
+                cands.append(_replace(e, path, "@unit"))  # a child replaced by the simplest constant
         for path, x in _subexprs(e):
             cs = children(x)
             for i in range(len(cs)):
@@ -1110,6 +1113,23 @@ def shrink(spec, pred):
                     cands.append(_replace(e, path, y))
             if x != "@unit" and x[0] == "@vext" and x[3][1] is not None:
                 cands.append(_replace(e, path, ["@vext", "c", x[2], ["@json", None], []]))
+            # simplify the type arguments of helpers / element types of empty collections
+            if x != "@unit" and x[0] in ("@none", "@left", "@right"):
+                ti = {"@none": 1, "@left": 2, "@right": 1}[x[0]]
+                row = x[ti]
+                for i in range(len(row)):
+                    y = copy.copy(x)
+                    y[ti] = row[:i] + row[i + 1:]
+                    cands.append(_replace(e, path, y))
+                    for simple in ("@qubit", ["@unit", 2]):
+                        if row[i] != simple:
+                            y = copy.copy(x)
+                            y[ti] = row[:i] + [simple] + row[i + 1:]
+                            cands.append(_replace(e, path, y))
+            if x != "@unit" and x[0] in ("@array", "@list", "@sarray") and x[2] != ["@unit", 2]:
+                y = copy.copy(x)
+                y[2] = ["@unit", 2]
+                cands.append(_replace(e, path, y))
         cands.sort(key=lambda c: len(json.dumps(c)))
         for c in cands:
             budget -= 1
